@@ -48,7 +48,7 @@ explain_exprs = D.explain_exprs
 shrink_candidates = D.shrink_candidates
 distribution = D.distribution
 
-W = dict(call=30, burst=8, adv=18, **{'yield': 24}, **{'raise': 4}, fin=8, junk=3)
+W = dict(call=30, chain=5, burst=8, adv=18, **{'yield': 24}, **{'raise': 4}, fin=8, junk=3)
 
 
 def corpus():
